@@ -71,7 +71,7 @@ let float_share (len : z) (actual : z) (avail : z) : z =
 
 let table : (string * (sexp -> sexp)) list = [
   ("C12", run_C12X);
-  ("C10", run_C10S);
+  ("C10", run_C10IO);
   ("C07", run_C07);
   ("C08", run_C08);
   ("C06", run_C06);
